@@ -638,7 +638,12 @@ Definition u_agrees (fixed : bool) (u : ucase) : bool :=
   end.
 
 (* the property on the implementation's outputs *)
-Definition u_ok (u : ucase) : bool :=
+(* a module whose trampoline cannot be set up (the page behind the text is needed and occupied) cannot be
+   patched: it must be left byte-for-byte untouched, its page permissions unchanged, the process running *)
+Definition u_ok_unpatchable (u : ucase) : bool :=
+  negb (i_fatal u) && (i_canary u =? 0) && bytes_eqb (u_before u) (i_after u)
+  && perm_list_eqb (u_perms u) (i_perm2 u).
+Definition u_ok_patchable (u : ucase) : bool :=
   let np := length (u_perms u) in
   let d := {| d_text_addr := u_text_addr u; d_text_size := i_tsize u; d_tramp := i_tramp u;
               d_ty := dyntype_of (u_ty u) |} in
@@ -654,6 +659,11 @@ Definition u_ok (u : ucase) : bool :=
   && ok_update (u_oracle u) (u_cfg u (i_tramp u)) (u_syms u) (u_targets u) (u_wbase u) (u_before u) (i_after u)
   && ok_pages [d] [] (pm_of (u_perms u)) (pm_of (i_perm2 u)) (map Z.of_nat (seq 0 np))
   && forallb (perm_eqb P_RX) (i_cp_after u).
+Definition u_ok (u : ucase) : bool :=
+  match setup_trampoline (pm_of (u_perms u)) (u_mdi u) with
+  | None => u_ok_unpatchable u
+  | Some _ => u_ok_patchable u
+  end.
 
 (* ------------------------------------------------------------------ end-to-end cases *)
 Record ecase := {
@@ -704,7 +714,7 @@ Definition tramp_of (text_addr text_size : Z) : Z :=
 (* the property on what was observed: the program ran and printed what it prints natively, no mapping
    is writable and executable, the trampoline page is r-x, the code bytes changed exactly as the
    specification says, and exactly the selected functions show up in the trace *)
-Definition e_ok (e : ecase) : bool :=
+Definition e_ok_patchable (e : ecase) : bool :=
   let c := e_cfg e (tramp_of (e_text_addr e) (e_text_size e)) in
   let m0 := mem_of (e_wbase e) (e_before e) in
   let vis := visited c (e_syms e) (e_targets e) in
@@ -715,6 +725,14 @@ Definition e_ok (e : ecase) : bool :=
                                             | _ => false
                                             end) vis))
               (o_traced e).
+
+Definition e_ok (e : ecase) : bool :=
+  match setup_trampoline (e_pm e) {| d_text_addr := e_text_addr e; d_text_size := e_text_size e; d_tramp := 0;
+                                     d_ty := dyntype_of (e_ty e) |} with
+  | None => negb (o_died e) && o_same_output e && o_rc_same e && (o_wx e =? 0)
+            && bytes_eqb (e_before e) (o_after e) && names_eq [] (o_traced e)
+  | Some _ => e_ok_patchable e
+  end.
 
 Fixpoint bad_indices {A} (f : A -> bool) (l : list A) (i : nat) : list nat :=
   match l with
